@@ -50,6 +50,7 @@ type Location struct {
 	Chunk    int
 	// probes
 	Common  *big.Int
+	Neg     *big.Int   // a negative serial listed in every version
 	OnlyV   []*big.Int // OnlyV[k] is listed in version k only
 	Never   []*big.Int
 	Fetches int
@@ -180,17 +181,25 @@ func (w *World) NewLocation(o LocOpts) *Location {
 	if o.Width == 1 && o.Extra > 20 {
 		o.Extra = 20
 	}
+	if o.Width == 2 && o.Extra > 10000 {
+		o.Width = 8
+	}
 	ser := func(tag uint32) *big.Int {
 		if o.Width < 4 {
 			return SerialOfWidth(o.Width, 0, tag)
 		}
-		return SerialOfWidth(o.Width, byte(0x11+o.Base), o.Base<<12|tag)
+		return SerialOfWidth(o.Width, byte(0x11+o.Base), o.Base<<20|tag)
 	}
 	l.Common = ser(5)
 	for k := 0; k < o.NVers; k++ {
 		l.OnlyV = append(l.OnlyV, ser(uint32(10+k)))
 	}
 	l.Never = []*big.Int{ser(7), new(big.Int).Add(l.Common, big.NewInt(1)), new(big.Int).Sub(l.Common, big.NewInt(1))}
+	// every version also lists one NEGATIVE serial (a CA encoding sloppiness that exists in the wild); the positive
+	// serial of the same magnitude is a different certificate and must never be reported revoked
+	negAbs := ser(9)
+	l.Never = append(l.Never, negAbs)
+	l.Neg = new(big.Int).Neg(negAbs)
 	for k := 0; k < o.NVers; k++ {
 		spec := &CRLSpec{Name: fmt.Sprintf("%s.v%d", o.Name, k+1), Issuer: o.Issuer, Alg: o.Alg, AutoAlg: o.AutoAlg || o.Alg == 0 && isRSAKey(o.Issuer),
 			ThisUpdate: epoch.Add(time.Duration(k) * time.Hour), NextUpdate: epoch.Add(time.Duration(k)*time.Hour + 7*24*time.Hour),
@@ -208,6 +217,7 @@ func (w *World) NewLocation(o LocOpts) *Location {
 			add(ser(uint32(100 + i)))
 		}
 		add(l.Common)
+		add(l.Neg)
 		for i := o.Extra / 2; i < o.Extra; i++ {
 			add(ser(uint32(100 + i)))
 		}
